@@ -1,2 +1,517 @@
-// stub created by the lead so that the workspace always loads; replace it with the check
-fn main() {}
+//! C12 — dynamic update applies RFC 2136 semantics and keeps the zone well-formed.
+//!
+//! E-STATE: breadth-first search over histories of TSIG-signed UPDATE messages executed on the
+//! real `Catalog::handle_request` -> `SqliteZoneHandler::update` (journal off). A node is a
+//! history; it is expanded by rebuilding the handler from the history and then applying every
+//! message of the alphabet to that state (the store content is put back after each message that
+//! changed something). Canonical key = sorted zone content + empty RRset keys + serial delta.
+//!
+//! Oracle (per transition): `vref::update` (RFC 2136 3.2-3.4 pseudocode + RFC 1982), fed with the
+//! raw request bytes and the implementation's pre-state, gives the set of acceptable rcodes and
+//! the acceptable resulting zones; plus the zone invariants and the serial clause of the
+//! property statement.
+
+mod alphabet;
+mod keying;
+
+use std::collections::BTreeSet;
+use std::sync::atomic::{AtomicU64, Ordering};
+
+use serde_json::{json, Value};
+use vcore::{catch, fnv_str, Ctx, Local};
+use vref::update as ru;
+use vupd::{Env, EnvOpts, Msg, Rr, Snap};
+
+use alphabet::{Config, MsgSpec};
+
+/// One oracle failure on one transition, before keying.
+#[derive(Clone, Debug, PartialEq, Eq)]
+pub struct Finding {
+    pub clause: String,
+    /// short expected/observed descriptor that is part of the key
+    pub detail: String,
+    pub what: String,
+}
+
+/// What one executed transition looked like.
+pub struct StepOut {
+    pub rcode: Option<u8>,
+    pub post: Snap,
+    pub findings: Vec<Finding>,
+    pub ref_accepted: bool,
+    pub changed: bool,
+    pub panic: Option<String>,
+    pub digest: u64,
+}
+
+fn rcodes_text(s: &BTreeSet<u8>) -> String {
+    s.iter().map(|r| ru::rcode_name(*r)).collect::<Vec<_>>().join("|")
+}
+
+pub struct Worker {
+    pub rt: tokio::runtime::Runtime,
+    pub signer: hickory_proto::rr::TSigner,
+    /// a handler whose store content is overwritten for witness minimisation (keying only)
+    pub scratch: Env,
+}
+
+impl Worker {
+    pub fn new() -> Worker {
+        vsim::reset_clocks(vupd::NOW);
+        let rt = vsim::rt();
+        let scratch = rt.block_on(Env::new(&[vupd::soa("z.", 60, 1, 1), vupd::ns("z.", 60, "n1.o.")], EnvOpts::default()));
+        Worker { rt, signer: vupd::signer1(), scratch }
+    }
+}
+
+/// Execute one concrete message on `env` (whose state is `pre`) and judge it.
+pub fn step(w: &Worker, env: &Env, pre: &Snap, msg: &Msg, id: u16) -> StepOut {
+    let bytes = vupd::signed_update(id, msg, &w.signer, vupd::NOW);
+    let mut findings = vec![];
+
+    // reference verdict from the raw bytes and the implementation's pre-state
+    let upd = ru::parse_update(&bytes).expect("reference parses the honest request");
+    let verdict = ru::process(&pre.zone(), &upd);
+
+    let res = catch(|| w.rt.block_on(async { env.exchange(&bytes).await }));
+    let post = w.rt.block_on(env.snapshot());
+    let mut panic = None;
+    let rcode = match res {
+        Err(p) => {
+            let loc = vcore::short_loc(&p.loc);
+            findings.push(Finding { clause: "panic".into(), detail: loc.clone(), what: format!("handler panicked: {} at {}", p.msg, loc) });
+            panic = Some(loc);
+            None
+        }
+        Ok(Err(e)) => {
+            findings.push(Finding { clause: "no-reply".into(), detail: String::new(), what: e });
+            None
+        }
+        Ok(Ok(r)) => Some(r.rcode),
+    };
+    let changed = post != *pre;
+    let content_changed = post.content() != pre.content();
+
+    if let Some(rc) = rcode {
+        if !verdict.accepted() {
+            if rc == ru::NOERROR {
+                findings.push(Finding {
+                    clause: "accepted-failing".into(),
+                    detail: format!("exp={} stage={}", rcodes_text(&verdict.rcodes), verdict.stage),
+                    what: format!(
+                        "RFC 2136 rejects the message ({} at {}), the server answered NOERROR{}",
+                        rcodes_text(&verdict.rcodes),
+                        verdict.stage,
+                        if changed { " and changed the zone" } else { "" }
+                    ),
+                });
+            } else {
+                if !verdict.rcodes.contains(&rc) {
+                    findings.push(Finding {
+                        clause: "rcode".into(),
+                        detail: format!("exp={} obs={}", rcodes_text(&verdict.rcodes), ru::rcode_name(rc)),
+                        what: format!("rejected with {} where RFC 2136 gives {}", ru::rcode_name(rc), rcodes_text(&verdict.rcodes)),
+                    });
+                }
+                if changed {
+                    findings.push(Finding {
+                        clause: "rejected-but-changed".into(),
+                        detail: format!("obs={}", ru::rcode_name(rc)),
+                        what: "the message was rejected but the zone changed".into(),
+                    });
+                }
+            }
+        } else if rc != ru::NOERROR {
+            findings.push(Finding {
+                clause: "rejected-valid".into(),
+                detail: format!("obs={}", ru::rcode_name(rc)),
+                what: format!("all prerequisites hold and the prescan passes, the server answered {}", ru::rcode_name(rc)),
+            });
+            if changed {
+                findings.push(Finding {
+                    clause: "rejected-but-changed".into(),
+                    detail: format!("obs={}", ru::rcode_name(rc)),
+                    what: "the message was rejected but the zone changed".into(),
+                });
+            }
+        }
+    }
+
+    // content + serial, only when both sides accepted
+    let pre_serial = pre.serial();
+    let post_serial = post.serial();
+    if verdict.accepted() && rcode == Some(ru::NOERROR) {
+        let pc = post.content();
+        let matching: Vec<&ru::Applied> = verdict.zones.iter().filter(|z| z.zone.content() == pc).collect();
+        if matching.is_empty() {
+            let want = verdict.zones[0].zone.content();
+            let missing: Vec<String> = want.difference(&pc).map(vupd::rr_text).collect();
+            let extra: Vec<String> = pc.difference(&want).map(vupd::rr_text).collect();
+            findings.push(Finding {
+                clause: "content".into(),
+                detail: format!("missing={} extra={}", missing.len().min(9), extra.len().min(9)),
+                what: format!("zone after the update differs from RFC 2136 3.4.2: missing {missing:?}, extra {extra:?}"),
+            });
+        }
+        // serial clause: which behaviours are acceptable?
+        if let (Some(s0), Some(s1)) = (pre_serial, post_serial) {
+            let advanced = ru::serial_advanced(s0, s1);
+            let stayed = s0 == s1;
+            // must_advance for a matching reference zone: content changed or the apex SOA was
+            // replaced by an Update RR carrying another serial
+            let mut ok = false;
+            let mut want = vec![];
+            let cands: Vec<bool> = if matching.is_empty() {
+                vec![content_changed]
+            } else {
+                matching
+                    .iter()
+                    .map(|m| content_changed || (m.soa_replaced && m.zone.serial() != Some(s0)))
+                    .collect()
+            };
+            for must_advance in cands {
+                if must_advance && advanced || !must_advance && stayed {
+                    ok = true;
+                }
+                want.push(if must_advance { "advance" } else { "stay" });
+            }
+            if !ok {
+                want.sort();
+                want.dedup();
+                let obs = if stayed {
+                    "stayed"
+                } else if advanced {
+                    "advanced"
+                } else {
+                    match ru::serial_cmp(s1, s0) {
+                        ru::SerialOrd::Less => "went-back",
+                        _ => "undefined-relation",
+                    }
+                };
+                findings.push(Finding {
+                    clause: "serial".into(),
+                    detail: format!("exp={} obs={}", want.join("|"), obs),
+                    what: format!(
+                        "serial {s0} -> {s1} ({obs}) although the content {} (RFC 1982 strict advance iff content changed)",
+                        if content_changed { "changed" } else { "did not change" }
+                    ),
+                });
+            }
+        }
+    } else if panic.is_none() {
+        // rejected (by either side): the serial must not move either; covered by `changed`
+    }
+
+    // invariants: report on the transition that introduces the breach
+    let inv_pre: Vec<&str> = ru::invariants(&pre.zone());
+    for iv in ru::invariants(&post.zone()) {
+        if !inv_pre.contains(&iv) {
+            findings.push(Finding { clause: format!("inv:{iv}"), detail: String::new(), what: format!("zone invariant broken after the message: {iv}") });
+        }
+    }
+
+    let digest = fnv_str(&format!("{:?}|{}|{:?}", rcode, post.key(0), findings.iter().map(|f| (&f.clause, &f.detail)).collect::<Vec<_>>()));
+    StepOut { rcode, post, findings, ref_accepted: verdict.accepted(), changed, panic, digest }
+}
+
+// ------------------------------------------------------------------------------------------
+
+#[derive(Clone)]
+struct Node {
+    cfg: usize,
+    history: Vec<Msg>,
+    key: u64,
+}
+
+fn case_json(cfg: &Config, history: &[Msg], msg: &Msg) -> Value {
+    json!({
+        "initial_zone": cfg.zone.iter().map(vupd::rr_json).collect::<Vec<_>>(),
+        "history": history.iter().map(|m| m.to_json()).collect::<Vec<_>>(),
+        "message": msg.to_json(),
+        "text": {
+            "initial_zone": cfg.zone.iter().map(vupd::rr_text).collect::<Vec<_>>(),
+            "history": history.iter().map(|m| m.text()).collect::<Vec<_>>(),
+            "message": msg.text(),
+        }
+    })
+}
+
+/// Build the handler of a node by replaying its history on a fresh handler.
+fn rebuild(w: &Worker, zone: &[Rr], history: &[Msg]) -> (Env, Snap) {
+    let env = w.rt.block_on(Env::new(zone, EnvOpts::default()));
+    for (i, m) in history.iter().enumerate() {
+        let bytes = vupd::signed_update(100 + i as u16, m, &w.signer, vupd::NOW);
+        let _ = catch(|| w.rt.block_on(async { env.exchange(&bytes).await }));
+    }
+    let snap = w.rt.block_on(env.snapshot());
+    (env, snap)
+}
+
+struct Shared<'a> {
+    ctx: &'a Ctx,
+    cfgs: &'a [Config],
+    keyer: keying::Keyer,
+    validated: AtomicU64,
+    selftest_mismatch: AtomicU64,
+    selftests: AtomicU64,
+}
+
+/// Apply every message of `alpha` to the state of `node`; returns the successors.
+fn expand(sh: &Shared, w: &Worker, node: &Node, alpha: &[MsgSpec], l: &mut Local, want_succ: bool) -> Vec<(Node, u64)> {
+    let cfg = &sh.cfgs[node.cfg];
+    let (env, pre) = rebuild(w, &cfg.zone, &node.history);
+    if pre.key(cfg.serial0) != node.key {
+        sh.ctx.machinery_failure(&format!("replaying a history gave another state than its first execution (cfg {})", cfg.name));
+        return vec![];
+    }
+    let saved = w.rt.block_on(env.save());
+    let cur = pre.serial().unwrap_or(0);
+    let mut succ = vec![];
+    for (mi, spec) in alpha.iter().enumerate() {
+        let msg = spec.materialise(cur);
+        let out = step(w, &env, &pre, &msg, 1000 + (mi % 60000) as u16);
+        l.eval();
+        sh.validated.fetch_add(1, Ordering::Relaxed);
+        classify(sh, w, cfg, &node.history, &pre, &msg, &out, l);
+        // determinism / "restore == rebuild" self-test on a fixed slice
+        if (node.key ^ mi as u64) % 257 == 0 {
+            sh.selftests.fetch_add(1, Ordering::Relaxed);
+            let (env2, pre2) = rebuild(w, &cfg.zone, &node.history);
+            let out2 = step(w, &env2, &pre2, &msg, 1000 + (mi % 60000) as u16);
+            if out2.digest != out.digest {
+                sh.selftest_mismatch.fetch_add(1, Ordering::Relaxed);
+            }
+        }
+        if out.changed {
+            if want_succ {
+                let k = out.post.key(cfg.serial0);
+                let mut h = node.history.clone();
+                h.push(msg.clone());
+                succ.push((Node { cfg: node.cfg, history: h, key: k }, k ^ (node.cfg as u64).wrapping_mul(0x9e3779b97f4a7c15)));
+            }
+            w.rt.block_on(env.restore(&saved));
+        }
+    }
+    succ
+}
+
+fn classify(sh: &Shared, w: &Worker, cfg: &Config, history: &[Msg], pre: &Snap, msg: &Msg, out: &StepOut, l: &mut Local) {
+    // outcome classes + non-trivial rule
+    let class = match (out.ref_accepted, out.rcode) {
+        (_, None) => "no-rcode",
+        (true, Some(0)) => {
+            if out.changed {
+                "applied-changing"
+            } else {
+                "applied-noop"
+            }
+        }
+        (true, Some(_)) => "impl-rejected-valid",
+        (false, Some(0)) => "impl-accepted-failing",
+        (false, Some(_)) => "rejected",
+    };
+    l.outcome(class);
+    if out.ref_accepted && out.changed {
+        l.nontrivial(fnv_str(&format!("{}|{}", pre.key(cfg.serial0), msg.text())));
+    } else if !out.ref_accepted && !history.is_empty() && !msg.prereqs.is_empty() {
+        // rejected by a prerequisite whose outcome depends on an earlier message of the history:
+        // the same message is not rejected the same way on the initial zone
+        let v0 = ru::process(
+            &ru::Zone { origin: ru::name_from_str(vupd::ORIGIN), class: ru::CLASS_IN, rrs: cfg.zone.clone() },
+            &ru::Update { zname: ru::name_from_str(vupd::ORIGIN), ztype: ru::T_SOA, zclass: ru::CLASS_IN, prereqs: msg.prereqs.clone(), updates: msg.updates.clone() },
+        );
+        if v0.accepted() {
+            l.nontrivial(fnv_str(&format!("{}|{}", pre.key(cfg.serial0), msg.text())));
+            l.outcome("rejected-by-history-dependent-prerequisite");
+        }
+    }
+    if !pre.empty_keys.is_empty() {
+        l.outcome("obs:pre-state-has-empty-rrset-key");
+    }
+    if out.post.empty_keys.len() > pre.empty_keys.len() {
+        l.outcome("obs:empty-rrset-key-left-behind");
+    }
+    for f in &out.findings {
+        let key = sh.keyer.key(w, f, pre, msg);
+        l.violation(&key, &f.what, || {
+            let mut j = case_json(cfg, history, msg);
+            j["clause"] = json!(f.clause);
+            j["detail"] = json!(f.detail);
+            j["pre_state"] = json!(pre.text());
+            j["post_state"] = json!(out.post.text());
+            j["rcode"] = json!(out.rcode.map(ru::rcode_name));
+            j
+        });
+    }
+}
+
+/// AXFR through the catalog must list exactly the RRs `records()` shows.
+fn axfr_agrees(w: &Worker, env: &Env, snap: &Snap) -> Result<(), String> {
+    let q = vupd::query_bytes(7, vupd::ORIGIN, hickory_proto::rr::RecordType::AXFR);
+    let r = catch(|| w.rt.block_on(async { env.exchange(&q).await })).map_err(|p| format!("panic {}", p.msg))??;
+    let mut got: Vec<Rr> = r.answers.clone();
+    // leading and trailing SOA
+    if got.len() >= 2 && got[0].rtype == ru::T_SOA && got[got.len() - 1].rtype == ru::T_SOA {
+        got.pop();
+    }
+    got.sort();
+    let mut want = snap.rrs.clone();
+    want.sort();
+    if got != want {
+        return Err(format!("AXFR lists {:?}, records() has {:?}", got.iter().map(vupd::rr_text).collect::<Vec<_>>(), snap.text()));
+    }
+    Ok(())
+}
+
+fn main() {
+    let ctx = Ctx::from_args("C12", "model_checking");
+    let thorough = !ctx.quick();
+
+    if let Some((_key, case)) = ctx.replay_case() {
+        let w = Worker::new();
+        let keyer = keying::Keyer::new();
+        ctx.with_local(|l| {
+            let zone: Vec<Rr> = case["initial_zone"].as_array().map(|a| a.iter().map(vupd::rr_from_json).collect()).unwrap_or_default();
+            let history: Vec<Msg> = case["history"].as_array().map(|a| a.iter().map(Msg::from_json).collect()).unwrap_or_default();
+            let msg = Msg::from_json(&case["message"]);
+            let (env, pre) = rebuild(&w, &zone, &history);
+            let out = step(&w, &env, &pre, &msg, 1000);
+            l.eval();
+            for f in &out.findings {
+                let key = keyer.key(&w, f, &pre, &msg);
+                l.violation(&key, &f.what, || json!({"initial_zone": case["initial_zone"], "history": case["history"], "message": case["message"], "post_state": out.post.text()}));
+            }
+            eprintln!("replay: rcode={:?} post={:?} findings={:?}", out.rcode.map(ru::rcode_name), out.post.text(), out.findings);
+        });
+        ctx.finish(false);
+    }
+
+    let cfgs = alphabet::configs(thorough);
+    let m1 = alphabet::m1(thorough);
+    let m1_core = alphabet::m1_core();
+    let m2 = alphabet::m2(thorough);
+    ctx.set("alphabet_m1", json!(m1.len()));
+    ctx.set("alphabet_m1_core", json!(m1_core.len()));
+    ctx.set("alphabet_m2", json!(m2.len()));
+    ctx.set("configs", json!(cfgs.iter().map(|c| c.name.clone()).collect::<Vec<_>>()));
+    ctx.set_rule(
+        "E-STATE over histories of signed UPDATE messages on the real Catalog -> SqliteZoneHandler (journal off). Universe: origin z., owners \
+         {z., a.z., b.z., a.a.z., *.z., x.o.(out)}, types {A,TXT,CNAME,NS,SOA,ANY + meta AXFR/MAILB}, RDATA A{.1,.2} TXT{t} CNAME{a.z.,b.z.} \
+         NS{n1.o.,n2.o.} SOA serial {cur-1,cur,cur+1,cur+2,cur+2^31-1,cur+2^31}, TTL {0,60}. M1 = (<=1 prerequisite atom) x (<=1 update atom) \
+         over every form of RFC 2136 tables 3.2.4 / 3.4.2.6 plus malformed variants; M1-core = the same product over a sub-alphabet; \
+         M2 = (<=2 prerequisites) x (<=3 updates) in every order over a sub-alphabet. Roots = initial zones x initial serial \
+         {1, 2^31-1, 2^32-2}. BFS with M1 to the tier's depth, then M1-core to its depth, M2 applied as one further step from every state up to \
+         its depth; canonical key = zone content + empty RRset keys + serial delta. Oracle per transition: vref::update (RFC 2136 \
+         3.2/3.4 pseudocode, RFC 1982) on the raw request bytes and the implementation's pre-state: rcode in the acceptable set, rejected => \
+         unchanged, accepted => zone equals an acceptable reference zone, invariants (one SOA, apex NS, CNAME alone), serial strictly advanced iff \
+         content changed. Non-trivial = distinct (state, message) with an accepted zone-changing update or a rejection by a prerequisite that \
+         holds on the initial zone.",
+    );
+    ctx.assume("vref::update is the RFC 2136 3.2-3.4 / RFC 1982 reference; where prose and pseudocode disagree or precedence is not fixed it accepts every reading");
+    ctx.assume("the only state update() reads is the record store (journal off, DNSSEC off): putting the saved store content back after a message equals rebuilding from the history (self-tested on a fixed slice of transitions)");
+    ctx.assume("TSIG signing/verification is correct for honest requests (C13)");
+
+    let sh = Shared { ctx: &ctx, cfgs: &cfgs, keyer: keying::Keyer::new(), validated: AtomicU64::new(0), selftest_mismatch: AtomicU64::new(0), selftests: AtomicU64::new(0) };
+
+    // roots
+    let mut roots = vec![];
+    {
+        let w = Worker::new();
+        for (ci, cfg) in cfgs.iter().enumerate() {
+            let (env, snap) = rebuild(&w, &cfg.zone, &[]);
+            let mut want = cfg.zone.clone();
+            want.sort();
+            if snap.rrs != want || !snap.empty_keys.is_empty() {
+                ctx.machinery_failure(&format!("initial zone {} does not load as written: {:?}", cfg.name, snap.text()));
+            }
+            if let Err(e) = axfr_agrees(&w, &env, &snap) {
+                ctx.machinery_failure(&format!("AXFR of the initial zone {}: {e}", cfg.name));
+            }
+            let k = snap.key(cfg.serial0);
+            roots.push((Node { cfg: ci, history: vec![], key: k }, k ^ (ci as u64).wrapping_mul(0x9e3779b97f4a7c15)));
+        }
+    }
+
+    // depth plan: nodes at depth d < d_full are expanded with the full M1 alphabet, nodes at depth
+    // d_full <= d < d_core with M1-core; M2 is applied (as one further step, successors judged but
+    // not expanded) from every node at depth <= d_m2. Roots marked serial_focus use M1-serial.
+    let (d_full, d_core, d_m2) = if thorough { (2usize, 4usize, 1usize) } else { (1, 3, 0) };
+    ctx.set("depth_m1_full", json!(d_full));
+    ctx.set("depth_m1_core", json!(d_core));
+    ctx.set("depth_m2_from", json!(d_m2));
+    let m1_serial = alphabet::m1_serial();
+    ctx.set("alphabet_m1_serial", json!(m1_serial.len()));
+
+    let all_states: std::sync::Mutex<Vec<Node>> = std::sync::Mutex::new(roots.iter().map(|(n, _)| n.clone()).collect());
+    let max_depth = d_core.max(d_full);
+    let stats = vcore::bfs(&ctx, roots, max_depth, |node: &Node, l| {
+        thread_local! { static W: Worker = Worker::new(); }
+        W.with(|w| {
+            let d = node.history.len();
+            let cfg = &sh.cfgs[node.cfg];
+            let alpha: &[MsgSpec] = if cfg.serial_focus {
+                &m1_serial
+            } else if d < d_full {
+                &m1
+            } else {
+                &m1_core
+            };
+            let succ = expand(&sh, w, node, alpha, l, true);
+            if d <= d_m2 && !cfg.serial_focus {
+                let _ = expand(&sh, w, node, &m2, l, false);
+            }
+            all_states.lock().unwrap().extend(succ.iter().map(|(n, _)| n.clone()));
+            succ
+        })
+    });
+    ctx.set("bfs_per_depth_states", json!(stats.per_depth));
+    ctx.set("depth", json!(stats.depth_completed));
+    ctx.set("fixpoint", json!(stats.fixpoint));
+    ctx.traces_validated.store(sh.validated.load(Ordering::SeqCst), Ordering::SeqCst);
+    // transitions as counted by bfs() are the state-changing ones; all executed transitions:
+    ctx.transitions.store(sh.validated.load(Ordering::SeqCst), Ordering::SeqCst);
+    ctx.set("state_changing_transitions", json!(stats.transitions));
+
+    // AXFR cross-check on a deterministic sub-grid of the states found (every state in quick)
+    {
+        let states = all_states.into_inner().unwrap();
+        let mut seen = std::collections::HashSet::new();
+        let picked: Vec<&Node> = states.iter().filter(|n| seen.insert((n.cfg, n.key))).filter(|n| n.key % 16 == 0 || n.history.len() <= 1).collect();
+        ctx.set("axfr_cross_checked_states", json!(picked.len()));
+        ctx.par_run_init(picked.len() as u64, 8, |_| Worker::new(), |i, l, w| {
+            let n = picked[i as usize];
+            let cfg = &cfgs[n.cfg];
+            let (env, snap) = rebuild(w, &cfg.zone, &n.history);
+            l.eval();
+            match axfr_agrees(w, &env, &snap) {
+                Ok(()) => l.outcome("axfr-agrees"),
+                Err(e) => l.violation("axfr-differs-from-records", &e, || case_json(cfg, &n.history, &Msg::default())),
+            }
+        });
+    }
+
+    let st = sh.selftests.load(Ordering::SeqCst);
+    ctx.set("selftest_transitions_rebuilt_from_history", json!(st));
+    if sh.selftest_mismatch.load(Ordering::SeqCst) > 0 {
+        ctx.machinery_failure("determinism self-test: a transition gave another outcome when its handler was rebuilt from the history");
+    }
+    if st == 0 {
+        ctx.machinery_failure("determinism self-test did not run");
+    }
+    for class in ["applied-changing", "applied-noop", "rejected", "rejected-by-history-dependent-prerequisite"] {
+        if ctx.outcome_count(class) == 0 {
+            ctx.machinery_failure(&format!("vacuous run: outcome class {class} never exercised"));
+        }
+    }
+    ctx.with_local(|l| {
+        for c in cfgs.iter().take(3) {
+            l.sample(json!({"config": c.name, "zone": c.zone.iter().map(vupd::rr_text).collect::<Vec<_>>()}));
+        }
+        for m in m1.iter().step_by((m1.len() / 6).max(1)) {
+            l.sample(json!({"m1_message": m.materialise(1).text()}));
+        }
+    });
+    // depth-bounded, not a fixpoint: exhaustive over the declared bounded space
+    ctx.finish(true);
+}
+
